@@ -59,8 +59,8 @@ def expected_shape(operands, ops, lv):
 def standin_prec_chains(tier, seed, maxlen=None):
     lv = doc_levels()
     toks = sorted(SRC_OP)
-    maxlen = maxlen or (4 if tier == 'thorough' else 2)
-    names = ['a', 'b', 'c', 'd', 'e']
+    maxlen = maxlen or (4 if tier == 'thorough' else 3)
+    names = ['a', 'b', 'c', 'd', 'e', 'f', 'g', 'h', 'i']
     cases, meta = [], []
     for n in range(1, maxlen + 1):
         for combo in itertools.product(toks, repeat=n):
@@ -69,8 +69,17 @@ def standin_prec_chains(tier, seed, maxlen=None):
                 src += ' %s %s' % (t, names[i + 1])
             cases.append(src + ';')
             meta.append(combo)
-    # parenthesised sub-chains override: (x op y) is one operand
     rnd = random.Random(seed)
+    # longer chains (up to 8 operators), seeded samples
+    nlong = 6000 if tier == 'thorough' else 1500
+    for _ in range(nlong):
+        combo = tuple(rnd.choice(toks) for _ in range(rnd.randint(maxlen + 1, 8)))
+        src = names[0]
+        for i, t in enumerate(combo):
+            src += ' %s %s' % (t, names[i + 1])
+        cases.append(src + ';')
+        meta.append(combo)
+    # parenthesised sub-chains override: (x op y) is one operand
     for _ in range(200 if tier == 'thorough' else 40):
         combo = tuple(rnd.choice(toks) for _ in range(3))
         cases.append('a %s (b %s c) %s d;' % combo)
@@ -83,11 +92,11 @@ def standin_prec_chains(tier, seed, maxlen=None):
         else:
             exp = expected_shape(names[:len(combo) + 1], [SRC_OP[t] for t in combo], lv)
         if st != 'OK' or out != exp:
-            return dict(name='prec_chains', bound='all chains of 1..%d operators over the 18 binary operators + parenthesised samples' % maxlen,
+            return dict(name='prec_chains', bound='all chains of 1..%d operators over the 18 binary operators + %d seeded chains of up to 8 operators + parenthesised samples' % (maxlen, nlong),
                         cases=len(cases), status='violation',
                         detail='`%s` parses as %s %s, the published table demands %s' % (src, st, out, exp),
                         input=dict(source=src, expected=exp, observed=out, how='replay driver `shape` (ucglib::parse::parse)'))
-    return dict(name='prec_chains', bound='all chains of 1..%d operators over the 18 binary operators + parenthesised samples' % maxlen,
+    return dict(name='prec_chains', bound='all chains of 1..%d operators over the 18 binary operators + %d seeded chains of up to 8 operators + parenthesised samples' % (maxlen, nlong),
                 cases=len(cases), status='ok')
 
 
